@@ -176,6 +176,9 @@ def run(ctx: Ctx):
     # constructor calls of a generated dataclass vs Model/CallAssign.v (positional arguments: judged by C05 / C11, finding F-41)
     from .. import callassign as ca
     ca.check_part(ctx, 200 if not ctx.thorough else 3000, "C02", positional=False)
+    # dict displays whose values are nested lists / tuples vs Model/DictAssign.v
+    from .. import dictassign as da
+    da.check_part(ctx, 200 if not ctx.thorough else 3000, "C02")
     # real sessions
     sp = [gen_prog(ctx.rng, i) for i in range(SESSION_PROGS if not ctx.thorough else 80)]
     for p, o in zip(sp, tmap(run_session_pair, sp)):
@@ -189,6 +192,9 @@ def run(ctx: Ctx):
 
 
 def replay(ctx: Ctx, data):
+    if isinstance(data.get("case"), dict) and data["case"].get("kind") in ("dict", "dict-orders"):
+        from .. import dictassign as da
+        return da.replay_case(data["case"])
     if isinstance(data.get("case"), dict) and data["case"].get("kind") == "call":
         from .. import callassign as ca
         return ca.replay_case(data["case"])
